@@ -2229,7 +2229,10 @@ impl Compiler {
                             [Node::Format(..), Node::Prim(Primitive::Dup, _)] => return true,
                             _ => (),
                         }
-                        sub.is_pure(&self.asm) || !sub.sig().is_ok_and(|sig| sig == (0, 2))
+                        // Only an assertion that is known to throw makes a branch flexible.
+                        // Anything else must have a signature compatible with the other branches,
+                        // or the switch's signature would not describe what the branch does.
+                        false
                     })
                 });
             br.push((SigNode::new(sig, node), span));
